@@ -47,12 +47,16 @@ package ios
 //vc:  ensures[C15] rearmCount == old(rearmCount) + 1 && s.reloadActive
 
 //vc:func (*State).checkDeviceName
+//vc:  requires[C11] @notInConfMode !confMode
+//vc:  ensures[C11] @leavesConfMode !confMode
 //vc:  set nameChecked = true
 //vc:  set checkedName = name
 //vc:  ensures[C06] @reportedNameEqualsExpected name == strings.TrimSuffix(strings.TrimSpace(lastOutput), "#")
 //vc:  ensures[C06] nameChecked && checkedName == name
 
 //vc:func (*State).LoadDevice
+//vc:  requires[C11] @notInConfMode !confMode
+//vc:  ensures[C11] @leavesConfMode !confMode
 //vc:  requires[C06] !nameChecked
 //vc:  ensures[C06] @hostnameVerified err == nil ==> nameChecked && checkedName == path.Base(spocFile)
 //vc:  ensures[C06] @missingBannerRecorded err == nil ==> (markerMissing ==> len(s.State.errUnmanaged) > 0)
